@@ -21,7 +21,10 @@ RULE = ('family = one dataset src.map(u0).map(fresh).cache(keep_mem_free=K) (fre
         'prefetch(1,b) and prefetch(w,b) under the thread simulator, in-place mutation '
         'of the returned example, and the fault "available memory drops to / below '
         'the threshold" at any step, also in the middle of a prefetch iteration '
-        '(separate flapping configuration where it recovers); plus eager caching '
+        '(separate flapping configuration where it recovers); an iterator over the cache '
+        'held open and advanced step by step between other accesses; numpy integer '
+        'indices; a second independent cache created after the first one crossed its '
+        'threshold; plus eager caching '
         '(lazy=False) histories. Reference model: index -> first computed value, '
         'call counter per index, memory state. Non-trivial = at least one access hit '
         'an already frozen example or the memory fault fired; distinct = distinct '
